@@ -14,6 +14,9 @@ from ..repo import dotted, AnalysisError
 GE = "EasyFEA.FEM._group_elem._GroupElem"
 
 
+from . import c02 as _c02
+
+
 def fnum(x):
     return float(x.approx(30)) if isinstance(x, MQ) else float(x)
 
@@ -218,3 +221,6 @@ def run(ctx):
                 else:
                     r4.fail(con, label, fac.file, fac.lineno, "Gauss.Gauss_factory",
                             f"{what} of straight-sided {e}: integrand {label} is not integrated exactly by the {res[2]}-point {res[1]} rule selected for MatrixType.{mt} (error {fnum(err):.3e} on the coefficient of {pm})")
+
+    # ---- R7.5 "rich enough" clause of the statement: counting bound shared with C02 (R2.2)
+    _c02.rank_rules(ctx, lib, gl, only_stiffness=True)
